@@ -33,6 +33,36 @@ from .transforms import SceneGraph
 GeometryInput = Union[Geometry, Iterable[Geometry], Dict[str, Geometry], ArrayLike]
 
 
+def _bounding_vertices(geometry):
+    """
+    The vertices of a geometry whose AABB, after any transform,
+    is the AABB of the transformed geometry.
+
+    Parameters
+    ------------
+    geometry : Geometry
+      Mesh, path, point cloud, etc.
+
+    Returns
+    ------------
+    vertices : (n, 2), (n, 3) float or None
+      Vertices referenced by the geometry or None if the
+      geometry isn't bounded by vertices: it has curved
+      entities or it has no vertices at all.
+    """
+    if not hasattr(geometry, "vertices"):
+        return None
+    if hasattr(geometry, "entities"):
+        from ..path.entities import Line
+
+        if not all(isinstance(e, Line) for e in geometry.entities):
+            return None
+    if hasattr(geometry, "referenced_vertices"):
+        # vertices that no face or entity uses aren't part of the geometry
+        return geometry.vertices[geometry.referenced_vertices]
+    return geometry.vertices
+
+
 class Scene(Geometry3D):
     """
     A simple scene graph which can be rendered directly via
@@ -367,11 +397,12 @@ class Scene(Geometry3D):
         """
         # collect AABB for each geometry
         corners = {}
-        # collect vertices for every mesh
-        vertices = {
-            k: m.vertices if hasattr(m, "vertices") and len(m.vertices) > 0 else m.bounds
-            for k, m in self.geometry.items()
-        }
+        # collect the points which bound every geometry
+        vertices = {k: _bounding_vertices(m) for k, m in self.geometry.items()}
+        # geometry which isn't bounded by vertices (curved entities,
+        # no vertices at all) has to be placed to be measured
+        placed = {k for k, v in vertices.items() if v is None}
+        vertices = {k: v for k, v in vertices.items() if v is not None and len(v) > 0}
         # handle 2D geometries
         vertices.update(
             {
@@ -385,6 +416,18 @@ class Scene(Geometry3D):
         for node_name in self.graph.nodes_geometry:
             # access the transform and geometry name from node
             transform, geometry_name = self.graph[node_name]
+            if geometry_name in placed:
+                # ask a copy moved to the node for its bounds
+                current = self.geometry[geometry_name]
+                if current.is_empty:
+                    continue
+                current = current.copy()
+                if hasattr(current, "to_3D"):
+                    current = current.to_3D()
+                bounds = current.apply_transform(transform).bounds
+                if bounds is not None:
+                    corners[node_name] = np.array(bounds, dtype=np.float64)
+                continue
             # will be None if no vertices for this node
             points = vertices.get(geometry_name)
             # skip empty geometries
